@@ -63,14 +63,18 @@ pub fn tree_json(t: &Scad) -> String {
 fn pos(r: &mut Rng) -> f64 { r.cad().abs() + 0.05 }
 fn msize(r: &mut Rng) -> f64 { match r.below(4) { 0 => *r.pick(&[-5.0, 0.0, 1.0, 2.0, 3.0, 7.0, 9.0, 11.0, 13.0, 100.0, 101.0, 130.0]), 1 => r.range(2, 100) as f64, _ => *r.pick(&[2.0, 3.0, 4.0, 5.0, 6.0, 8.0, 10.0, 12.0, 16.0, 20.0, 24.0, 30.0, 36.0, 42.0, 48.0, 56.0, 64.0, 72.0, 80.0, 90.0, 100.0]) } }
 fn segs(r: &mut Rng) -> f64 { *r.pick(&[4.0, 5.0, 8.0, 16.0, 33.0]) }
-fn lead(r: &mut Rng) -> f64 { *r.pick(&[0.0, 0.0, 1.0, 45.0, 90.0, 360.0]) }
+fn lead(r: &mut Rng) -> f64 { *r.pick(&[0.0, 0.0, 1.0, 45.0, 90.0, 360.0, 300.0, 330.0]) }
 fn fl01(r: &mut Rng) -> f64 { if r.coin() { 1.0 } else { 0.0 } }
 
 pub fn gen_args(r: &mut Rng, op: i64) -> Vec<f64> {
     // thread lengths are a few pitches so that the meshes stay small enough to be compared inside Coq
     let m = msize(r);
     let pitch = metric_thread::verif_m_table_lookup(m as i32).0;
-    let len = pitch * r.uniform(2.6, 7.0);
+    // one part in four is barely over two pitches long and tapered at both ends by most of a turn: the step count, the tapers
+    // and the pitch per revolution interact only there
+    let short = r.below(4) == 0;
+    let len = pitch * if short { r.uniform(2.05, 2.9) } else { r.uniform(2.6, 7.0) };
+    let lead = |r: &mut Rng| if short { *r.pick(&[360.0, 330.0, 300.0, 360.0, 90.0]) } else { lead(r) };
     match op {
         500 => vec![m, len, segs(r), lead(r), lead(r), fl01(r), fl01(r)],
         501 => vec![m, len, segs(r), fl01(r), fl01(r)],
@@ -87,7 +91,7 @@ pub fn gen_args(r: &mut Rng, op: i64) -> Vec<f64> {
         512 => vec![pos(r) + 1.0, *r.pick(&[1.0, 45.0, 90.0, 180.0, 359.0, 360.0, 360.0, 0.5, 0.0, -10.0, 360.5, 450.0]), *r.pick(&[0.0, 0.005, 1.0, 30.0, 250.0]), 3.0 + r.below(60) as f64],
         _ => { let pitch = *r.pick(&[0.4, 0.5, 0.8, 1.0, 1.25, 1.5, 2.0, 3.0, 6.0]); let d_maj = pitch * r.uniform(4.0, 12.0);
                let d_min = d_maj - 2.0 * 5.0 / 8.0 * (3.0f64.sqrt() / 2.0 * pitch);
-               vec![d_min, d_maj, pitch, pitch * r.uniform(2.5, 8.0), segs(r), lead(r), lead(r), fl01(r), fl01(r)] }
+               vec![d_min, d_maj, pitch, pitch * if short { r.uniform(2.05, 2.9) } else { r.uniform(2.5, 8.0) }, segs(r), lead(r), lead(r), fl01(r), fl01(r)] }
     }
 }
 
